@@ -321,6 +321,72 @@ func (c *Ctx) buildEffGraph() *effGraph {
 			}
 		}
 	}
+	// function values parked in package-level variables: whoever reads the variable can call them.
+	// For every store rooted at a global, the function values in the backward slice of the stored
+	// value (within the storing function) are recorded for that global.
+	globalFns := map[*ssa.Global][]*ssa.Function{}
+	for f := range c.allFuncs {
+		if !c.inScope(f) || f.Blocks == nil {
+			continue
+		}
+		for _, b := range f.Blocks {
+			for _, in := range b.Instrs {
+				var addr, val ssa.Value
+				switch x := in.(type) {
+				case *ssa.Store:
+					addr, val = x.Addr, x.Val
+				case *ssa.MapUpdate:
+					addr, val = x.Map, x.Value
+				default:
+					continue
+				}
+				root := addr
+				for depth := 0; depth < 8; depth++ {
+					switch y := root.(type) {
+					case *ssa.FieldAddr:
+						root = y.X
+						continue
+					case *ssa.IndexAddr:
+						root = y.X
+						continue
+					case *ssa.UnOp:
+						root = y.X
+						continue
+					}
+					break
+				}
+				gl, ok := root.(*ssa.Global)
+				if !ok {
+					continue
+				}
+				seenV := map[ssa.Value]bool{}
+				var back func(v ssa.Value, d int)
+				back = func(v ssa.Value, d int) {
+					if v == nil || seenV[v] || d > 12 {
+						return
+					}
+					seenV[v] = true
+					switch y := v.(type) {
+					case *ssa.Function:
+						globalFns[gl] = append(globalFns[gl], y)
+						return
+					case *ssa.MakeClosure:
+						if fn, ok := y.Fn.(*ssa.Function); ok {
+							globalFns[gl] = append(globalFns[gl], fn)
+						}
+					}
+					if ins, ok := v.(ssa.Instruction); ok {
+						for _, op := range ins.Operands(nil) {
+							if op != nil && *op != nil {
+								back(*op, d+1)
+							}
+						}
+					}
+				}
+				back(val, 0)
+			}
+		}
+	}
 	for f := range c.allFuncs {
 		if !c.inScope(f) || f.Blocks == nil {
 			continue
@@ -370,6 +436,13 @@ func (c *Ctx) buildEffGraph() *effGraph {
 						continue // the callee itself: handled as a call above
 					}
 					switch v := (*op).(type) {
+					case *ssa.Global:
+						for _, gf := range globalFns[v] {
+							if deniedPrimitive(gf) {
+								g.denied[f] = append(g.denied[f], fmt.Sprintf("%s (parked in %s) at %s", gf.String(), v.Name(), c.posStr(in.Pos())))
+							}
+							add(gf)
+						}
 					case *ssa.Function:
 						if deniedPrimitive(v) {
 							g.denied[f] = append(g.denied[f], fmt.Sprintf("%s (taken as a value) at %s", v.String(), c.posStr(in.Pos())))
@@ -916,6 +989,11 @@ func (c *Ctx) scanMapOrder(d MapOrderDirective) ([]*Obligation, string) {
 						switch x := r.(type) {
 						case *ssa.MakeInterface, *ssa.ChangeType, *ssa.Convert, *ssa.Phi, *ssa.ChangeInterface, *ssa.FieldAddr, *ssa.IndexAddr, *ssa.UnOp, *ssa.Field, *ssa.Alloc:
 							mark(x.(ssa.Value))
+						case *ssa.Lookup:
+							// what another table holds under the key met (slot[name]) is met in the same order
+							mark(x)
+						case *ssa.Extract:
+							mark(x)
 						case *ssa.BinOp:
 							switch x.Op {
 							case token.EQL, token.NEQ, token.LSS, token.GTR, token.LEQ, token.GEQ:
